@@ -1231,7 +1231,8 @@ def cmp_twin_log(d) -> List[Any]:
 
 
 def sf_twin_log(d) -> List[Any]:
-    """Recorded defect behaviour of finding C03-g, as a twin of the evaluator on the shared symbolic-function shapes: whether the
+    """(regression documentation; no longer used as a tolerated class since krrood 67f3580)
+    Recorded defect behaviour of finding C03-g, as a twin of the evaluator on the shared symbolic-function shapes: whether the
     function's result is a truth value (a condition) or a value (a selected expression) is read from the NODE's _eval_parent_ when
     each result is built (Variable._process_output_and_update_values_), while _eval_parent_ is written whenever any evaluation
     enters the node: a condition-evaluation that enumerates its variable inside one call of the node (sf_cond) reads the role the
@@ -1298,8 +1299,8 @@ def extra_verdict(d, impl) -> Tuple[str, Any]:
     if log == exp:
         return "ok", exp
     if all(sh[0] in SF_SHAPES for sh in d["shapes"]):
-        # finding C03-g (K_shared_function_role): exact match with the recorded defect behaviour, nothing else
-        return ("known:K_shared_function_role" if log == sf_twin_log(d) else "violation"), exp
+        # finding C03-g was repaired in krrood 67f3580: the shared-function family must simply equal the isolated results
+        return "violation", exp
     if all(sh[0] in CMP_SHAPES for sh in d["shapes"]):
         # finding C03-f was repaired in krrood ef33928: the shared-comparison family must simply equal the isolated results
         return "violation", exp
